@@ -70,7 +70,7 @@ static void sweep_case(long item)
 
 struct case_budget chk_budget(const char *tier)
 {
-        struct case_budget b = { n_tables(), strcmp(tier, "thorough") == 0 ? 1500000 : 60000 };
+        struct case_budget b = { n_tables(), strcmp(tier, "thorough") == 0 ? 8000000 : 200000 };
         return b;
 }
 void chk_run_case(uint64_t seed, long c, bool is_sweep)
